@@ -314,7 +314,7 @@ func init() {
 		mode := "readfrom"
 		if len(a) > 2 {
 			mode = a[2]
-			if mode != "readfrom" && mode != "frombuffer" && mode != "mixed" {
+			if mode != "readfrom" && mode != "frombuffer" && mode != "mixed" && mode != "afterfail" {
 				panic(skipErr{"mode"})
 			}
 		}
@@ -322,6 +322,26 @@ func init() {
 		src, err := x.ToBytes()
 		if err != nil {
 			return "err"
+		}
+		if mode == "afterfail" {
+			// failed decodes first (truncated streams, a reader that errors, empty input) through every pooled path: whatever
+			// they leave in the process-wide pools must not disturb the concurrent decodes that follow
+			for i := 0; i < 48; i++ {
+				cut := (i * 7) % (len(src))
+				y := roaring.New()
+				switch i % 3 {
+				case 0:
+					_, err = y.ReadFrom(bytes.NewReader(src[:cut]))
+				case 1:
+					_, err = y.FromBuffer(src[:cut:cut])
+				default:
+					_, err = y.ReadFrom(&chunkReader{data: src[:cut], chunk: 1 + i%5})
+				}
+				if err == nil {
+					return fmt.Sprintf("accepted-prefix@%d", cut)
+				}
+			}
+			mode = "readfrom"
 		}
 		const rounds = 8
 		results := make([]string, k)
